@@ -1,15 +1,18 @@
 """C11 — request bodies are framed exactly and re-sent identically.
 
-stage 1  TLC checks spec/BodyFraming.tla (re-send state machine over the framing decision table, Serialize and the
-         paranoid Parse of spec/Wire.tla) over every scenario of spec/MC_BodyFraming.tla: body kind x size x start
-         offset x method x chunked flag x caller framing header x client (bare pool / PoolManager) x attempt history
-           D = {}            the repaired design: RulesHold (ExactlyOneFraming, PayloadEqualsBody, UnframedWhenBodyless,
-                             BodyIdentical-or-UnrewindableBodyError), FramingTable, RefusedOnlyWhenUnreplayable,
-                             DesignResends, PredictIsTheMachine, liveness Terminates; per-action coverage read back
-           D = {D3, D4}      the code as recorded: RulesHoldExceptKnown (only BodyIdentical fails, only inside the classes)
-           D = {D3}, {D4}    RulesHold is expected to FAIL: TLC exhibits each recorded deviation
-stage 2  TLC emits every terminal state: the scenario with the model's expected observations (per attempt: method,
-         framing, payload; outcome), for D = {} (design) and D = {D3, D4} (code as recorded)
+stage 1  TLC checks spec/BodyFraming.tla (re-send state machine of HTTPConnectionPool.urlopen and PoolManager.urlopen over the
+         framing decision table, Serialize and the paranoid Parse of spec/Wire.tla) over every scenario of spec/MC_BodyFraming.tla:
+         body kind x size x start offset x method x chunked flag x caller framing header x client (bare pool / PoolManager) x
+         attempt history (one re-send, and two re-sends in a row), in ONE exhaustive run that explores side by side
+           D = {}        the design: RulesHold (ExactlyOneFraming, PayloadEqualsBody, UnframedWhenBodyless, BodyIdentical-or-
+                         UnrewindableBodyError), FramingTable, RefusedOnlyWhenUnreplayable, DesignResends,
+                         ManagerKeepsFirstPosition, PredictIsTheMachine, liveness Terminates
+           D = {D3}      the code as recorded (on one-shot bodies, where the deviation's guard can fire): RulesHoldExceptKnown
+           D = {ZeroPosTreatedAsUnset}  a variant TLC must refute (PoolManager tests the truth value of the recorded position):
+                         it breaks BodyIdentical exactly for a seekable body at offset 0 after two manager-level redirects
+         the action trail of every behaviour is read back (an action nobody takes is a vacuous model)
+stage 2  the same run prints every terminal state: the scenario with the model's expected observations (per attempt: method,
+         framing, payload; outcome) and TLC's own Verdict on them
 stage 3  every scenario is replayed into the real HTTPConnectionPool.urlopen / PoolManager.urlopen over the in-memory
          network (several concrete body objects per abstract kind); the scripted peer answers along the history
 stage 4  every run is recorded (per attempt the raw bytes the peer received, or - for bodies of realistic size around
@@ -36,12 +39,13 @@ from .c10 import syms, text, tokenise, user_agent
 HOST = "h"
 REAL_BS = 16384
 METHODS = ["GET", "POST", "DELETE", "PUT", "PATCH", "HEAD", "OPTIONS", "get"]     # = MethodTable of MC_BodyFraming
-ACTIONS = ["ActRecordPosition", "ActTellFails", "ActMarkUnreplayable", "ActNoPosition", "ActRewind", "ActRewindSeekFails",
+ACTIONS = ["ActManagerRecords", "ActManagerKeeps", "ActRecordPosition", "ActTellFails", "ActMarkUnreplayable", "ActNoPosition", "ActRewind", "ActRewindSeekFails",
            "ActRewindRefused", "ActRewindNoSeek", "ActSend", "ActSendBreaks", "ActReturn", "ActRetry", "ActPoolRedirect", "ActManagerRedirect",
            "ActSeeOther"]
 NEVER = {"ActRewindNoSeek"}                                  # must stay at zero (an integer position implies seek)
-INV_DESIGN = ["TypeOK", "RulesHold", "FramingTable", "RefusedOnlyWhenUnreplayable", "DesignResends", "PredictIsTheMachine"]
-INV_CODE = ["TypeOK", "RulesHoldExceptKnown", "FramingTable", "RefusedOnlyWhenUnreplayable", "PredictIsTheMachine"]
+INVARIANTS = ["TypeOK", "RulesHold", "RulesHoldExceptKnown", "FramingTable", "RefusedOnlyWhenUnreplayable", "DesignResends",
+              "ManagerKeepsFirstPosition", "PredictIsTheMachine"]
+Z0 = "ZeroPosTreatedAsUnset"
 RESEND = ["err", "errsend", "503", "307", "308", "303"]
 ALL_KINDS = ["none", "bytes", "str", "buffer", "file", "textfile", "notell", "badseek", "badtell", "list", "strlist", "gen"]
 TEXT_KINDS = {"str", "textfile", "strlist"}
@@ -56,13 +60,13 @@ MC_CFG = """SPECIFICATION Spec
 CONSTANTS
   HostValue <- EnvHost
   UAValue <- EnvUA
-  MCDefects = {defects}
+  MCDefectSets = {defects}
   MCKinds = {kinds}
   MCSizes = {sizes}
-  MCHistSizes = {hsizes}
   MCMethods = {methods}
-  MCMaxRe = {maxre}
-  MCOutcomes = {outcomes}
+  MCHistSizes = {hsizes}
+  MCHistMethods = {hmethods}
+  MCHist3Sizes = {h3sizes}
   MCBS = {bs}
   ShardK = {k}
   ShardS = {s}
@@ -83,8 +87,8 @@ def jobs() -> int:
     return max(1, int(os.environ.get("VERIF_JOBS") or 0) or os.cpu_count() or 4)
 
 
-def env_doc():
-    return {"host": syms(HOST), "ua": syms(user_agent())}
+def env_doc(hists=(("ok",),)):
+    return {"host": syms(HOST), "ua": syms(user_agent()), "hists": [list(h) for h in hists]}
 
 
 def tla_set(xs):
@@ -475,7 +479,7 @@ def _model_run(args):
     """One exhaustive TLC run of MC_BodyFraming (invariants + liveness + coverage) that also prints every terminal state.
     -> (result summary, {scenario key: (sc, observations, verdict clause)})"""
     name, cfg, envdoc, expect_fail = args
-    out = {}
+    out, trail = {}, {}
 
     def on_line(ln):
         if not ln.startswith(_SC):
@@ -483,14 +487,17 @@ def _model_run(args):
         if not ln.endswith('">>'):
             raise tlc.MachineryError("wrapped emission line: " + ln[:200])
         d = json.loads(_unq(ln[len(_SC):-3]))
-        out[sc_key(d["sc"])] = (d["sc"], {"outcome": d["outcome"], "atts": d["atts"]}, d["verdict"]["clause"])
+        out[(d["dv"], sc_key(d["sc"]))] = (d["sc"], {"outcome": d["outcome"], "atts": d["atts"]}, d["verdict"]["clause"])
+        for a in d["trail"]:
+            trail[a] = trail.get(a, 0) + 1
         return True
 
-    r = tlc.run("MC_BodyFraming", cfg, workers=max(1, min(8, jobs() // 2)), on_line=on_line, files={"bf_env.json": json.dumps(envdoc)},
-                env={"BF_ENV": "bf_env.json"}, timeout=7200, heap="3g", coverage=not expect_fail, expect_fail=expect_fail)
-    m = re.search(r"Finished computing initial states: (\d+) distinct state", r.out)
+    r = tlc.run("MC_BodyFraming", cfg, workers=jobs(), on_line=on_line, files={"bf_env.json": json.dumps(envdoc)},
+                env={"BF_ENV": "bf_env.json"}, timeout=7200, heap="3g", expect_fail=expect_fail)
+    m = (re.search(r"Finished computing initial states: (\d+) distinct state", r.out)
+         or re.search(r"Finished computing initial states: \d+ states generated, with (\d+) of them distinct", r.out))
     return ({"name": name, "violated": r.violated, "distinct": r.distinct, "generated": r.generated, "depth": r.depth, "wall": r.wall,
-             "coverage": {k: v[1] for k, v in r.coverage.items()}, "initial": int(m.group(1)) if m else -1, "tail": r.out[-1500:]}, out)
+             "coverage": trail, "initial": int(m.group(1)) if m else -1, "tail": r.out[-1500:]}, out)
 
 
 def _replay_shard(args):
@@ -517,22 +524,33 @@ def plan_realisations(sc, idx, quick, rng):
     return out
 
 
+def _hists(quick):
+    """attempt histories: every one ends in "ok"; quick keeps every single re-send and every PAIR of consecutive re-sends over
+    {connection error, 503, 307, 308} (two re-sends in a row is where a position that was recorded again shows)"""
+    one = [(o, "ok") for o in RESEND]
+    pair_alphabet = ["err", "503", "307", "308"] if quick else RESEND
+    two = [(a, b, "ok") for a in pair_alphabet for b in pair_alphabet]
+    return [("ok",)] + one + two
+
+
 def _params(quick):
     if quick:
-        return dict(kinds=ALL_KINDS, sizes=[0, 1, 4], hsizes=[0, 1, 4], methods=[1, 2, 3], maxre=1, bs=3)
-    return dict(kinds=ALL_KINDS, sizes=[0, 1, 2, 3, 4, 8], hsizes=[0, 1, 4], methods=[1, 2, 3, 4, 5, 6, 7, 8], maxre=2, bs=3)
+        return dict(kinds=ALL_KINDS, sizes=[0, 1, 4], methods=[1, 2, 3], hsizes=[0, 4], hmethods=[2], h3sizes=[4], bs=3)
+    return dict(kinds=ALL_KINDS, sizes=[0, 1, 2, 3, 4, 8], methods=[1, 2, 3, 4, 5, 6, 7, 8], hsizes=[0, 1, 4],
+                hmethods=[1, 2, 3, 4, 5, 6, 7, 8], h3sizes=[0, 1, 4], bs=3)
 
 
 def _cfg(p, defects, checks, k=1, s=0, emit=False):
-    return MC_CFG.format(defects=tla_set(defects), kinds=tla_set(p["kinds"]), sizes=tla_set(p["sizes"]), hsizes=tla_set(p["hsizes"]),
-                         methods=tla_set(p["methods"]), maxre=p["maxre"], outcomes=tla_set(p.get("outcomes", RESEND)), bs=p["bs"], k=k, s=s, emit="TRUE" if emit else "FALSE",
-                         checks=checks)
+    return MC_CFG.format(defects="{" + ", ".join(tla_set(d) for d in defects) + "}", kinds=tla_set(p["kinds"]), sizes=tla_set(p["sizes"]), hsizes=tla_set(p["hsizes"]),
+                         methods=tla_set(p["methods"]), hmethods=tla_set(p["hmethods"]), h3sizes=tla_set(p["h3sizes"]), bs=p["bs"],
+                         k=k, s=s, emit="TRUE" if emit else "FALSE", checks=checks)
 
 
 def run(rep):
     quick = rep.tier == "quick"
     p = _params(quick)
-    envdoc = env_doc()
+    hists = _hists(quick)
+    envdoc = env_doc(hists)
     rng = random.Random(rep.seed)
     rep.rule = ("every terminal state of the re-send model (body kind x size x start offset x method x chunked flag x caller framing header x "
                 "bare pool / PoolManager x attempt history over {ok, connection error after / in the middle of the request, 503, 307, 308, 303}) is replayed into the real urlopen with several "
@@ -543,53 +561,64 @@ def run(rep):
                        "body objects are well-behaved (read/tell/seek do what io objects do, except the two scripted failures)",
                        "TLC 1.8, CPython http.client and vh/net.py are trusted; C10 covers header/target injection"]
     K = jobs()
-    inv = lambda names: "\n".join("INVARIANT " + i for i in names)
-    tiny = dict(kinds=["file", "gen"], sizes=[1], hsizes=[1], methods=[2], maxre=1, bs=3)
-    mruns = [("design", _cfg(p, [], inv(INV_DESIGN + ["EmitInv"]) + "\nPROPERTY Terminates", emit=True), envdoc, False),
-            ("code", _cfg(p, ["D3", "D4"], inv(INV_CODE + ["EmitInv"]) + "\nPROPERTY Terminates", emit=True), envdoc, False),
-            ("exhibit-D3", _cfg(tiny, ["D3"], "INVARIANT RulesHold"), envdoc, True),
-            ("exhibit-D4", _cfg(tiny, ["D4"], "INVARIANT RulesHold"), envdoc, True)]
+    checks = "\n".join("INVARIANT " + i for i in INVARIANTS + ["EmitInv"]) + "\nPROPERTY Terminates"
+    # ---- stage 1 + 2: ONE exhaustive run explores the design (D = {}), the code as recorded (D = {D3}, on one-shot bodies, where
+    # the deviation's guard can fire) and the variant that must be refuted (D = {ZeroPosTreatedAsUnset}, on seekable bodies behind a
+    # PoolManager) side by side, checks every invariant in every state and prints every terminal state
+    r1, emitted = _model_run(("MC_BodyFraming", _cfg(p, [[], ["D3"], [Z0]], checks, emit=True), envdoc, False))
+    label = f"MC_BodyFraming D in {{{{}}, {{D3}}, {{{Z0}}}}} {p} histories={len(hists)} invariants={INVARIANTS}+Terminates"
+    rep.states += r1["distinct"]
+    rep.transitions += r1["generated"]
+    rep.stage1.append({"run": label, "distinct_states": r1["distinct"], "states_generated": r1["generated"], "depth": r1["depth"],
+                       "wall_s": round(r1["wall"], 2), "scenarios": r1["initial"]})
+    if r1["violated"]:
+        rep.violation("SpecInvariant", f"TLC: {r1['violated']} violated in {label}\n{r1['tail']}")
+        return
+    # per-action counts, from the action trails TLC printed with the terminal states (every behaviour ends in one)
+    cov = {a: r1["coverage"].get(a, 0) for a in ACTIONS}
+    if set(r1["coverage"]) - set(ACTIONS):
+        raise tlc.MachineryError(f"the model took actions the harness does not know: {set(r1['coverage']) - set(ACTIONS)}")
+    rep.extra["action_coverage"] = cov
+    for a in ACTIONS:
+        if a in NEVER:
+            if cov[a]:
+                rep.violation("SpecInvariant", f"action {a} must never be enabled but TLC took it {cov[a]} times")
+        elif not cov[a]:
+            raise tlc.MachineryError(f"vacuous model: action {a} never taken (coverage {cov})")
+    if len(emitted) != r1["initial"]:
+        raise tlc.MachineryError(f"emission incomplete: {len(emitted)} terminal states emitted for {r1['initial']} scenarios")
+    design = {k: v for (dv, k), v in emitted.items() if dv == "design"}
+    code = {k: v for (dv, k), v in emitted.items() if dv == "D3"}
+    zero = {k: v for (dv, k), v in emitted.items() if dv == Z0}
+    if not design or not set(code) <= set(design) or not set(zero) <= set(design) or len(design) + len(code) + len(zero) != len(emitted):
+        raise tlc.MachineryError(f"emission mismatch: {len(design)} design / {len(code)} D3 / {len(zero)} {Z0} terminal states")
+    if {k for k, v in design.items() if v[0]["kind"] in ONE_SHOT} != set(code):
+        raise tlc.MachineryError("the run with the recorded deviation D3 did not cover exactly the one-shot scenarios")
+    bad_design = [k for k, v in design.items() if v[2] != "ok"]
+    if bad_design:
+        raise tlc.MachineryError("emission shows a Rules failure in the design model: " + bad_design[0])
+    # TLC must exhibit the recorded deviation and refute the zero-position variant (its own Verdict on its own model run)
+    shown = {"D3": sum(1 for v in code.values() if v[2] == "BodyIdentical"), Z0: sum(1 for v in zero.values() if v[2] == "BodyIdentical")}
+    rep.extra["deviations_exhibited_by_tlc"] = shown
+    rep.extra["emitted_scenarios"] = {"design": len(design), "D3": len(code), Z0: len(zero)}
+    for d, n in shown.items():
+        if not n:
+            raise tlc.MachineryError(f"the deviation {d} is not reachable in the model: no terminal state violates BodyIdentical with D = {{{d}}}")
+    one_hop = [k for k, v in zero.items() if v[2] != "ok" and sum(o in ("307", "308") for o in v[0]["hist"]) < 2]
+    if one_hop:
+        raise tlc.MachineryError(f"{Z0} breaks a history with fewer than two redirects in the model: {one_hop[0]}")
+    K = jobs()
     with mp.Pool(K) as pool:
-        # ---- stage 1 + 2: the four model-checking runs side by side; the two full runs also emit their terminal states
-        (r_design, design), (r_code, code), (x3, _), (x4, _) = pool.map(_model_run, mruns, chunksize=1)
-        for r, label in ((r_design, f"MC_BodyFraming design D={{}} {p} invariants={INV_DESIGN}+Terminates"),
-                         (r_code, f"MC_BodyFraming code-as-recorded D={{D3,D4}} invariants={INV_CODE}+Terminates")):
-            rep.states += r["distinct"]
-            rep.transitions += r["generated"]
-            rep.stage1.append({"run": label, "distinct_states": r["distinct"], "states_generated": r["generated"], "depth": r["depth"],
-                               "wall_s": round(r["wall"], 2), "scenarios": r["initial"]})
-            if r["violated"]:
-                rep.violation("SpecInvariant", f"TLC: {r['violated']} violated in {label}\n{r['tail']}")
-                return
-        cov = {a: {"design": r_design["coverage"].get(a, 0), "code": r_code["coverage"].get(a, 0)} for a in ACTIONS}
-        rep.extra["action_coverage"] = cov
-        for a in ACTIONS:
-            if a in NEVER:
-                if cov[a]["design"] or cov[a]["code"]:
-                    rep.violation("SpecInvariant", f"action {a} must never be enabled but TLC took it {cov[a]}")
-            elif not cov[a]["design"] or (a != "ActMarkUnreplayable" and not cov[a]["code"]):
-                raise tlc.MachineryError(f"vacuous model: action {a} never taken (coverage {cov})")
-        for x, d in ((x3, "D3"), (x4, "D4")):
-            if "RulesHold" not in x["violated"]:
-                raise tlc.MachineryError(f"the deviation {d} is not reachable in the model: RulesHold not violated with D = {{{d}}}\n{x['tail']}")
-        rep.extra["deviations_exhibited_by_tlc"] = {"D3": x3["violated"], "D4": x4["violated"]}
-        # every scenario (= initial state) must have been emitted exactly once by both runs
-        if not design or set(design) != set(code) or len(design) != r_design["initial"] or len(code) != r_code["initial"]:
-            raise tlc.MachineryError(f"emission incomplete: {len(design)} design / {len(code)} code terminal states emitted for "
-                                     f"{r_design['initial']} / {r_code['initial']} scenarios")
-        rep.extra["emitted_scenarios"] = len(design)
-        bad_design = [k for k, v in design.items() if v[2] != "ok"]
-        if bad_design:
-            raise tlc.MachineryError("emission shows a Rules failure in the design model: " + bad_design[0])
         # ---- stage 3/4
         items = []
         for idx, k in enumerate(sorted(design)):
             sc = design[k][0]
-            expected = {"design": design[k][1], "code": code[k][1]}
+            expected = {"design": design[k][1], "code": code.get(k, design[k])[1]}
             for mode, variant, total in plan_realisations(sc, idx, quick, rng):
                 items.append((sc, mode, variant, total, expected))
         rng.shuffle(items)
-        per = min(3000, max(1, (len(items) + K - 1) // K))       # traces per TLC batch (one JVM each)
+        # traces per TLC batch (one JVM each): not more batches than processes, not fewer than ~500 traces per JVM start
+        per = min(3000, max(500, (len(items) + K - 1) // K))
         shards = [(items[i:i + per], "emitted") for i in range(0, len(items), per)]
         results = pool.map(_replay_shard, shards)
     tally = {}
@@ -615,7 +644,7 @@ def run(rep):
     need = [f"kind:{k}" for k in ALL_KINDS] + [f"variant:{v}" for vs in VARIANTS.values() for v in vs] + ["mode:sym", "mode:dig", "client:pool",
             "client:mgr", "outcome:resp", "outcome:UnrewindableBodyError", "first:none/plain/nobody", "first:none/chunked/nobody",
             "first:none/plain/body", "first:none/chunked/body", "first:cl/plain/body", "first:te/plain/body"]
-    need += [f"hist:{o}>ok" for o in RESEND] + ["hist:ok", "incomplete-attempt"]
+    need += ["hist:" + ">".join(h) for h in hists] + ["incomplete-attempt"]
     for nd in need:
         if not tally.get(nd) and not rep.violations:      # a violation is reported first; vacuity only matters for a green run
             raise tlc.MachineryError(f"vacuous coverage: no execution with {nd} (tally {tally})")
